@@ -391,6 +391,15 @@ def _c10_extra2():
     except (Untranslatable, SyntaxError, OSError) as e:
         text += f"\n/-- SKIPPED ({e}) -/\ndef inplaceOnInputs : List (String × String) := []\n"
         status["inplaceOnInputs"] = f"skipped: {e}"
+    # ---- callers of the primitives: which module's function do they reach?
+    try:
+        rows = tb.primitive_callers(_R)
+        text += ("\n/-- translated: every call of a crop / pad primitive inside `direct/`: (file, primitive, module it resolves to) -/\n"
+                 f"def primitiveCallers : List (String × String × String) :=\n  {_rows3(rows)}\n")
+        status["primitiveCallers"] = f"translated ({len(rows)} call sites)"
+    except (Untranslatable, OSError) as e:
+        text += f"\n/-- SKIPPED ({e}) -/\ndef primitiveCallers : List (String × String × String) := []\n"
+        status["primitiveCallers"] = f"skipped: {e}"
     # ---- crop shape rule
     try:
         text += (f"\n/-- translated from `{MT}`:`CropKspace.__call__` (the if-chain assigning `crop_shape`) -/\n"
